@@ -110,7 +110,8 @@ def run_c05(ctx):
     import xarray as xr
 
     t = ctx.tape
-    cfg = {"bufsize": t.pick([8192, 64], "bufsize"), "permute_listing": t.flag(1, 2, "permute")}
+    cfg = {"bufsize": t.pick([8192, 64], "bufsize"), "permute_listing": t.flag(1, 2, "permute"),
+           "mtime_granularity": "tape"}
     w = ctx.world(cfg)
     root = w.root
     kind = t.pick(["scalar", "tuple2"], "kind")
@@ -250,7 +251,23 @@ def run_c05(ctx):
                 pts = [(a, b) for a in avals for b in bvals]
             new = {model.key(a, b): model.outputs(a, b, ver) for a, b in pts}
             sync = True
-            if op in ("harvest_combos", "harvest_cases") and t.flag(1, 5, "unsynced"):
+            if op in ("harvest_combos", "harvest_cases") and t.flag(1, 8, "confirm-unsynced-region"):
+                # a synced harvest over the region the un-acknowledged harvests use (same
+                # version, so it can only agree with them): it may add nothing new to what
+                # the session holds in memory - and must be saved all the same
+                ver = 0
+                avals = t.perm(A_UNSYNCED, "a-unsynced-c")[: t.int_between(1, 2, "na-uc")]
+                held_now = sorted((k for k in session["held"] if k[2] == model.z), key=repr)
+                if held_now and t.flag(1, 2, "confirm-a-held-point"):
+                    # exactly a point this session already holds un-synced
+                    a_, b_, _ = held_now[t.choose(len(held_now), "held-point")]
+                    avals, bvals = [a_], [b_]
+                pts = [(a, b) for a in avals for b in bvals]
+                if op == "harvest_cases":
+                    pts = pts[: t.int_between(1, len(pts), "ncases-uc")]
+                new = {model.key(a, b): model.outputs(a, b, ver) for a, b in pts}
+                ctx.stats["synced-harvest-in-unsynced-region"] += 1
+            elif op in ("harvest_combos", "harvest_cases") and t.flag(1, 5, "unsynced"):
                 # un-acknowledged harvests live in their own coordinate region (and
                 # one version), so they can never interact with acknowledged data:
                 # later they may be present or absent, but never wrong
